@@ -15,6 +15,7 @@ def jobs(ctx):
     ex(2, -1, 1); ex(2, -2, 0, '0'); ex(2, 0, 2, '1/2'); ex(2, -1, 1, 'sym')
     ex(3, -1, 1); ex(3, -2, 0, '5/2', warm=True); ex(3, 0, 1, '1', warm=True)
     ex(3, -1, 1, H=3, offset=1); ex(2, -1, 1, conf_band=True)
+    ex(3, -1, 1, col0=7); ex(2, -2, 0, '1', col0=2)       # column coordinates not starting at 0 (ROI datasets)
     if not ctx.quick:
         for (a, b) in ((-2, 2), (-3, -1), (1, 2), (0, 0)):
             ex(3, a, b, '1'); ex(3, a, b, 'sym', warm=True)
